@@ -143,7 +143,7 @@ func (q *Query) Print() string {
 
 	var orderBy string
 	if q.orderBy != "" {
-		orderBy = fmt.Sprintf(" orderby %s", q.orderBy)
+		orderBy = fmt.Sprintf(" orderby %s", escapeString(q.orderBy))
 	}
 
 	var limit string
@@ -156,7 +156,7 @@ func (q *Query) Print() string {
 		offset = fmt.Sprintf(" offset %d", q.offset)
 	}
 
-	return fmt.Sprintf("query %s:%s%s%s%s%s", q.dbName, q.dbKeyPrefix, where, orderBy, limit, offset)
+	return fmt.Sprintf("query %s%s%s%s%s", escapeString(q.dbName+":"+q.dbKeyPrefix), where, orderBy, limit, offset)
 }
 
 // DatabaseName returns the name of the database.
